@@ -1,5 +1,10 @@
 """C19 — runs are isolated.  Proof over Host.host_runs (outcomes in any history = outcomes alone;
-leftover goroutines print nothing).  Tie (`seq` suite): histories of programs — accepted, rejected,
+leftover goroutines print nothing) and over HostGlobals.ghost_runs (a host whose state includes the package-level
+variables of the Go program: isolated provided the table of their uses has no mutating row outside init-time code).
+Tie 1 (translator): gen/Globals.v — every package-level var and every use of one, regenerated from the Go source with
+go/ast + go/types on every run; theorem C19_globals_immutable is re-checked over it; when it breaks, diag/C19Diag.v names
+the variable and the function, `probe globals lines` the file:line, and the `seq` stages below (with more histories)
+look for a concrete history.  Tie 2 (`seq` suite): histories of programs — accepted, rejected,
 unparseable, repeated — are run inside ONE real OS process (`probe seq`), each program's stdout
 captured separately, and compared with the same program run alone in a fresh process and with the
 model."""
@@ -8,6 +13,7 @@ import concurrent.futures
 import json
 import os
 import random
+import re
 
 from .. import common as C
 from .. import runsuite as R
@@ -17,6 +23,45 @@ from .. import textgen as T
 PROP = "C19"
 PROP_V = "theories/props/C19.v"
 MODEL_AREAS = ('front', 'tc', 'run')
+
+
+GLOBALS_FILES = ("theories/gen/Globals.v", "theories/GlobalsDefs.v", "theories/GlobalsDiscipline.v",
+                 "theories/proofs/GlobalsProofs.v")
+
+
+def globals_diag(b):
+    """when the table theorem no longer compiles: the offending rows, computed in Coq, with their source positions"""
+    if not os.path.exists(os.path.join(C.COQ, "theories/GlobalsDiscipline.vo")):
+        return None
+    rc, out, err = C.run(["coqc", "-Q", os.path.join(C.COQ, "theories"), "Grits", "-o", os.path.join(C.CACHE, "C19Diag.vo"),
+                          os.path.join(C.COQ, "theories/diag/C19Diag.v")], timeout=300)
+    txt = " ".join((out + err).split())
+    rep = {}
+    for m in re.finditer(r'= \("([A-Z]+)", (\[.*?\])\) : ', txt):
+        rows = [tuple(re.findall(r'"([^"]*)"', r)) for r in re.findall(r'\(+("[^()]*)\)', m.group(2))]
+        rep[m.group(1)] = rows
+    if not any(rep.values()):
+        return None
+    # source positions of the offending uses
+    rc, out, err = C.run([b.probe, "globals", "lines"], timeout=600)
+    where = collections.defaultdict(list)
+    for l in out.split("\n"):
+        f = l.split("\t")
+        if len(f) == 7:
+            where[tuple(f[:5])].append(f[6])
+    rep["positions"] = {"%s.%s in %s.%s (%s)" % r: where.get(tuple(r), []) for r in rep.get("OFFENDING", []) + rep.get("FOREIGN", []) if len(r) == 5}
+    return rep
+
+
+def globals_stats():
+    try:
+        t = open(os.path.join(C.GEN, "Globals.v")).read()
+    except FileNotFoundError:
+        return {}
+    return {"globals_table_vars": t.count("mkGvar "), "globals_table_vars_pipeline": len(re.findall(r"mkGvar [^\n]* true[;\]]", t)),
+            "globals_table_use_rows": t.count("mkGuse "),
+            "globals_table_use_kinds": {k: len(re.findall(r"mkGuse [^\n]* %s (?:true|false)" % k, t)) for k in ("URead", "UIndexRead", "UWrite", "UEscape")},
+            "globals_table_rule": "every package-level var of every package of the module (non-test files, build tag verif) and every identifier that go/types resolves to one, exhaustive"}
 
 
 def pool(seed, tier):
@@ -147,6 +192,12 @@ def run(b, ps, tier, seed):
     rng = random.Random(seed)
     pl = pool(seed, tier)
     n_hist, hlen = (16, (5, 9)) if tier == "quick" else (300, (5, 40))
+    # 0. the table of package-level variables: when its theorem broke, name variable + function and search harder
+    gdiag = None
+    if any(f in ps.broken for f in GLOBALS_FILES) or "Globals.v" in b.gen_errors:
+        gdiag = globals_diag(b)
+        n_hist *= 3
+        C.log("[C19] the table of package-level variables breaks the discipline: %s" % (json.dumps(gdiag)[:1500] if gdiag else "(no diagnosis: the table does not compile)"))
     hists = []
     for _ in range(n_hist):
         k = rng.randint(*hlen)
@@ -227,6 +278,15 @@ def run(b, ps, tier, seed):
                         "program %d (%s) of a history behaves differently than alone: in history %s, alone %s, model %s" % (k, i, g2, w2, model_res[t]),
                         {"property": PROP, "kind": "history-dependence", "index": k, "history": [{"id": a, "text": x} for a, x in h],
                          "in_history": g2, "alone": w2, "model": model_res[t], "host_pattern": sub, "replay_cmd": "bin/check C19 --replay <this file>"}))
+    if gdiag and not violations:
+        rows = gdiag.get("OFFENDING", []) + gdiag.get("FOREIGN", [])
+        what = "; ".join("%s.%s is %s in %s.%s" % (r[0], r[1], {"UWrite": "written", "UEscape": "aliased / escapes"}.get(r[4], r[4]), r[2], r[3]) for r in rows if len(r) == 5)
+        what += "".join("; %s.%s has type %s" % r for r in gdiag.get("BADVARS", []) if len(r) == 3)
+        violations.append(C.Violation(
+            "package-level state that outlives a run: " + what,
+            {"property": PROP, "kind": "mutable-package-level-state", "offending": {k: v for k, v in gdiag.items()},
+             "no_longer_checks": [{"what": "theorem C19_globals_immutable over gen/Globals.v (premise of C19_isolated_globals)", "detail": what}],
+             "note": "none of the %d histories run by this check behaved differently than alone" % len(plans)}, found_input=False))
     cov = {
         "evaluations": checked,
         "distinct_nontrivial": len(distinct),
@@ -235,11 +295,14 @@ def run(b, ps, tier, seed):
         "histories": len(plans), "host_patterns": ["seqnc: typechecking skipped (--notypecheck), bare-expression programs after late parse failures", "seqopen: accepted open programs that strand goroutines, repeated, then ordinary programs", "seq: a fresh RuntimeEnvironment per program (as the repository's tests and benchmark driver do)", "seqre: ONE RuntimeEnvironment re-used through InitializeProcesses"], "verdicts_in_histories": dict(verdicts),
         "deviations_confirmed": deviations, "cut_short_by_timer_then_ok_on_rerun": artefacts,
     }
+    cov.update(globals_stats())
     return {"violations": violations, "known": [], "coverage": cov,
             "assumptions": ["memory and CPU consumed by leaked goroutines are not modelled",
-                            "the host model has no shared state by construction: that the code has none is what this correspondence checks",
+                            "Host.host_runs has no shared state by construction; HostGlobals.ghost_runs has the package-level variables as state and is isolated because the regenerated table has no mutating row: what the table cannot see is state behind standard-library calls (flag, log, math/rand, os.Setenv), state reachable from a re-used RuntimeEnvironment (suite seqre), reflection / unsafe / linkname; third-party packages are not loaded (calls into them are classified by callee name)",
+                            "the instrumented pipeline of HostGlobals is assumed to be the model when started from the initial store: that is the correspondence of every suite (one fresh process per program)",
                             "quiescence detection by timer: deviations are re-run with a longer timeout before they count"],
-            "trusted_extra": ["correspondence: `probe seq` (one OS process per history, per-program stdout capture) vs the same programs alone vs the extracted model"]}
+            "trusted_extra": ["translator `probe globals` (go/ast + go/types; syntactic classification of uses, conservative: what it cannot classify counts as a write)",
+                              "correspondence: `probe seq` (one OS process per history, per-program stdout capture) vs the same programs alone vs the extracted model"]}
 
 
 def replay(b, path):
